@@ -225,6 +225,14 @@ func (vc *VC) applyContract(st *State, call *ast.CallExpr, c *Contract, callee *
 			st.assume(t)
 		}
 	}
+	if c.RecDec != nil && vc.contract == c && vc.inlineDepth == 0 {
+		// a self-call: the declared measure, evaluated on the callee's arguments now, is non-negative and strictly
+		// below the measure of this invocation at entry
+		mNew := vc.evalSpecIntIn(pre, c.RecDec)
+		entrySc := &SpecScope{cur: vc.entry, old: vc.entry, names: vc.entryVals, pkg: vc.pkg, where: vc.fname + " recursion measure"}
+		mOld := vc.evalSpecIntIn(entrySc, c.RecDec)
+		vc.oblige(st, "variant", "recursion", "recursion decreases "+c.RecDecText+" [self-call at "+vc.w.pos(call.Pos())+"]", call.Pos(), smtAnd(app("<=", "0", mNew), app("<", mNew, mOld)))
+	}
 	oldSt := st.clone()
 	// closures handed to the callee are verified as callbacks (before the callee's effects are applied,
 	// under a havocked heap: the callee may run them at any point)
@@ -450,6 +458,7 @@ func (vc *VC) run() {
 		v := vc.freshValue(st, "in_"+id.Name, obj.Type())
 		names[id.Name] = v
 		vc.recordInputs(id.Name, v)
+		vc.recordPointees(st, id.Name, v, obj.Type())
 		vc.bindParam(st, obj, v)
 	}
 	if fd.Recv != nil {
@@ -525,6 +534,53 @@ func (vc *VC) run() {
 			pos = fd.Body.Rbrace
 		}
 		vc.checkPosts(o.st, rets, pos, names)
+	}
+}
+
+// recordPointees: what a replay needs beyond the parameter values themselves - the scalar fields of a struct behind a
+// pointer parameter and the first bytes of byte slices (as terms over the entry heap, evaluated in the model).
+func (vc *VC) recordPointees(st *State, name string, v *Value, T types.Type) {
+	defer func() { recover() }() // best effort: anything unusual just means "no replay"
+	vc.specMode++
+	defer func() { vc.specMode-- }()
+	bytesOf := func(path string, s *Value) {
+		if s == nil || s.K != VSlice {
+			return
+		}
+		sl, ok := under(s.T).(*types.Slice)
+		if !ok {
+			return
+		}
+		if b, ok := under(sl.Elem()).(*types.Basic); !ok || b.Kind() != types.Uint8 {
+			return
+		}
+		h := vc.heapGet(st, elemCompPrefix(sl.Elem()), sortAt("Int", 2))
+		for i := 0; i < 32; i++ {
+			vc.inputs = append(vc.inputs, InputSym{Name: fmt.Sprintf("%s[%d]", path, i), Term: sel2(h, s.Arr, app("+", s.Off, fmt.Sprint(i)))})
+		}
+	}
+	switch u := under(T).(type) {
+	case *types.Slice:
+		bytesOf(name, v)
+	case *types.Pointer:
+		if _, ok := under(u.Elem()).(*types.Struct); !ok {
+			return
+		}
+		pv := vc.load(st, vc.derefLoc(v.Term, u.Elem()))
+		pv.leaves(name+"->", func(path string, leaf *Value, isBool bool) {
+			vc.inputs = append(vc.inputs, InputSym{Name: path, Term: leaf.Term})
+		})
+		if pv.K == VStruct {
+			for _, fn := range pv.FOrder {
+				bytesOf(name+"->."+fn, pv.Fields[fn])
+			}
+		}
+	case *types.Struct:
+		if v.K == VStruct {
+			for _, fn := range v.FOrder {
+				bytesOf(name+"."+fn, v.Fields[fn])
+			}
+		}
 	}
 }
 
@@ -694,8 +750,12 @@ func (vc *VC) finishObligations() {
 		for _, ca := range vc.contract.CallAsserts {
 			if !vc.callAssertSeen[fmt.Sprintf("%s %d %s", ca.Callee, ca.Ord, ca.Clause.Label)] {
 				// the call the assertion is anchored at does not exist (any more): the assertion cannot be established
-				o := &Obligation{ID: fmt.Sprintf("%s#callsite.%s%d.%s@0", vc.fname, ca.Callee, ca.Ord, ca.Clause.Label), Family: fmt.Sprintf("%s#callsite.%s%d.%s", vc.fname, ca.Callee, ca.Ord, ca.Clause.Label),
-					Kind: "callsite", Func: vc.fname, Text: "callsite " + ca.Callee + " " + fmt.Sprint(ca.Ord) + ": no such call is reached", Goal: "false"}
+				kind := "callsite"
+				if ca.Closure {
+					kind = "closure"
+				}
+				o := &Obligation{ID: fmt.Sprintf("%s#%s.%s%d.%s@0", vc.fname, kind, ca.Callee, ca.Ord, ca.Clause.Label), Family: fmt.Sprintf("%s#%s.%s%d.%s", vc.fname, kind, ca.Callee, ca.Ord, ca.Clause.Label),
+					Kind: kind, Func: vc.fname, Text: "callsite " + ca.Callee + " " + fmt.Sprint(ca.Ord) + ": no such call is reached", Goal: "false"}
 				vc.obls = append(vc.obls, o)
 			}
 		}
